@@ -771,10 +771,12 @@ fn refusal(e: &mut Eng<'_>) {
             };
             let target = if sc >= 2 { e.overlay(f2) } else { f2 };
             e.pcall("commit", f1, None, false);
+            // (a first changeset that changes nothing leaves the root where it was: then the second is not stale; this must be
+            // looked at BEFORE the second call — an accepted second changeset moves the oracle's state too)
+            let first_moved_root = root_of(&e.or.cur) != root_of(&base);
             let kind = ["commit", "trycommit", "ocommit", "otrycommit"][sc];
             let o = e.pcall(kind, target, None, false);
-            // (a first changeset that changes nothing leaves the root where it was: then the second is not stale)
-            if root_of(&e.or.cur) != root_of(&base) && (o.res != "err" || o.why != "stale") {
+            if first_moved_root && (o.res != "err" || o.why != "stale") {
                 e.out.fail(format!("C12 a stale {kind} was not rejected as stale ({} {}) :: {}", o.res, o.why, e.desc));
             }
         }
